@@ -123,6 +123,8 @@ func ruleC04(c *Check) {
 	// the slash fraction in force is any value of [0,1]: every place that validates parameters applies to it the validator
 	// registered for it (genesis validation pairing it with the tax's validator refuses the legal value 1)
 	c.paramValidatorsAgree("C04.7")
+	// an answer in the last block of the window is not a failure: the respond handler turns nothing away that the keeper accepts
+	c.handlersAddNoRejection("C04.8", "MsgRespondService")
 	ss := c.slashFuncs()
 	if !c.req(len(ss) >= 1, "C04.1", "slash-function", token.NoPos, "functions burning from the deposit account: "+strings.Join(fnNames(ss), ",")) {
 		return
